@@ -64,6 +64,7 @@ PROPS["C01"] = dict(
              thorough=dict(shards=15, checks=6400, timeout=3000)),
         # the node's own timer against a refutation that is accepted while the expiry is being carried out: the death notice it was about to issue is stale by then
         dict(name="window", pkg="./props/c06", run="^TestRefutationInsideExpiry$", quick=dict(shards=1, checks=14, timeout=600), thorough=dict(shards=2, checks=400, timeout=3000)),
+        dict(name="stale-race", run="^TestStaleClaims$", race=True, quick=dict(shards=1, checks=40, timeout=900), thorough=dict(shards=2, checks=1200, timeout=3000)),
     ],
     assumptions=PUPPET_ASSUMPTIONS + [
         "a record first seen already dead (created by an alive at incarnation 0) has unknown age and may be reclaimed at once when a reclaim time is set",
@@ -89,6 +90,7 @@ PROPS["C02"] = dict(
              quick=dict(shards=14, checks=340, timeout=600),
              thorough=dict(shards=14, checks=9000, timeout=3000)),
         dict(name="fire", run="^TestStartupUnderFire$", quick=dict(shards=2, checks=30, timeout=600), thorough=dict(shards=2, checks=2500, timeout=3000)),
+        dict(name="self-race", run="^TestSelfDefence$", race=True, quick=dict(shards=1, checks=40, timeout=900), thorough=dict(shards=2, checks=1200, timeout=3000)),
     ],
     assumptions=PUPPET_ASSUMPTIONS + [
         "alive claims about the node carry its own address (a different address is the conflict case of C08)",
@@ -109,8 +111,9 @@ PROPS["C18"] = dict(
           "disallowed source changes nothing. non-trivial = disallowed address on a path other than a plain new-node UDP alive, or a disallowed source"),
     tests=[
         dict(name="allow", run="^TestAllowlist$",
-             quick=dict(shards=16, checks=300, timeout=600),
-             thorough=dict(shards=16, checks=8000, timeout=3000)),
+             quick=dict(shards=15, checks=320, timeout=600),
+             thorough=dict(shards=15, checks=8500, timeout=3000)),
+        dict(name="allow-race", run="^TestAllowlist$", race=True, quick=dict(shards=1, checks=40, timeout=900), thorough=dict(shards=2, checks=1200, timeout=3000)),
     ],
     assumptions=PUPPET_ASSUMPTIONS + [
         "a non-nil empty allowlist means allow-all (pinned by IPMustBeChecked and Test_IsValidAddressOverride), so only non-empty lists are generated",
@@ -272,8 +275,9 @@ PROPS["C08"] = dict(
              quick=dict(shards=10, checks=120, timeout=600),
              thorough=dict(shards=10, checks=4000, timeout=3000)),
         dict(name="leaver", run="^TestLeaver$",
-             quick=dict(shards=6, checks=1200, timeout=600),
-             thorough=dict(shards=6, checks=60000, timeout=3000)),
+             quick=dict(shards=5, checks=1400, timeout=600),
+             thorough=dict(shards=5, checks=70000, timeout=3000)),
+        dict(name="race", run="^(TestLeaveFinalAndHijack|TestLeaver)$", race=True, quick=dict(shards=1, checks=60, timeout=900), thorough=dict(shards=2, checks=2000, timeout=3000)),
     ],
     assumptions=PUPPET_ASSUMPTIONS + [
         "the Leave race is sampled by releasing the call and the accusations at the same virtual instant; which goroutine wins is up to the Go scheduler",
@@ -565,7 +569,8 @@ PROPS["C09"] = dict(
           "successful join; distinct = distinct plans"),
     tests=[
         dict(name="aon", run="^TestAllOrNothing$", quick=dict(shards=12, checks=250, timeout=600), thorough=dict(shards=12, checks=8000, timeout=3400)),
-        dict(name="mutual", run="^TestMutualJoin$", quick=dict(shards=4, checks=60, timeout=600), thorough=dict(shards=4, checks=2000, timeout=3000)),
+        dict(name="mutual", run="^TestMutualJoin$", quick=dict(shards=3, checks=80, timeout=600), thorough=dict(shards=3, checks=2700, timeout=3000)),
+        dict(name="race", run="^(TestAllOrNothing|TestMutualJoin)$", race=True, quick=dict(shards=1, checks=40, timeout=900), thorough=dict(shards=2, checks=1200, timeout=3000)),
         # exchanges refused at the concurrency cap must leave nothing behind either: once the pending ones are gone an honest exchange is served again
         dict(name="cap", pkg="./props/c13", run="^TestConcurrentPushPullCap$", quick=dict(shards=1, checks=40, timeout=600), thorough=dict(shards=2, checks=600, timeout=3000)),
     ],
